@@ -140,6 +140,16 @@ def run(ctx):
         cases.append({"entries": batch, "builder": "make_partial_rule_dataset", "depth": 10})
         sb = rnd.sample(small, min(len(small), 4))
         cases.append({"entries": sb + [sb[0]], "builder": "run_corpus", "depth": 0})
+    # run_corpus: the same test string and reference time under two DIFFERENT targets that the text really produces
+    # (a per-call cache keyed without the target must not hand the second entry the first one's labels)
+    for text in ["tomorrow 9-5", "8pm tomorrow", "5.3.2021 for 3 days", "monday 8", "1.1. - 3.1.", "heute 15 uhr", "in the morning", "9-5"]:
+        outs = []
+        for c in qa.CTP.ctparse_gen(text, datetime(*ts0), timeout=0, max_stack_depth=0, scorer=qa.DummyScorer(), latent_time=False, relative_match_len=1.0):
+            if c is not None and c.resolution.nb_str() not in outs:
+                outs.append(c.resolution.nb_str())
+        for a, b in itertools.combinations(outs[:4], 2):
+            cases.append({"entries": [(text, ts0, a), (text, ts0, b)], "builder": "run_corpus", "depth": 0})
+            cases.append({"entries": [(text, ts0, b), (text, ts0, a), (text, ts0, b)], "builder": "run_corpus", "depth": 0})
     twins = [("3 days", ts0, "Duration[]{3 days}"), ("3 days", ts0, "Duration[]{4 days}"), ("3 days", ts0, "Duration[]{3 days}"),
              ("8pm", ts0, "Time[]{X-X-X 08:00 (X/X)}"), ("8pm", ts0, "Time[]{X-X-X 20:00 (X/X)}")]
     cases.append({"entries": twins, "builder": "make_partial_rule_dataset", "depth": 10})
